@@ -30,24 +30,25 @@ before any non-deferred unlock; `held` = an unexported helper, *every* reference
 (call, method value) is made with the lock held — by a locked function, a holder method, or,
 recursively, a held helper; `probe` = as `held`, and the function only inspects the encoder's
 state through a type assertion; `holder` = a method of the type `TokenWriter` returns (made
-only with the lock held: `C05_gen_tokenwriter_holds_lock`); `setup` = `negotiateSession` /
-`writeStreamFeatures` (stream negotiation: no other goroutine has the session yet).
+only with the lock held: `C05_gen_tokenwriter_holds_lock`); `setup` = a function that can only run
+while a session is being made (structural, see `C05_gen_lock_discipline`: no other goroutine has
+the session yet).
 Anything else is reported as `unlocked` / `unlocked-probe`. -/
 def protectedClass (c : String) : Bool :=
   c == "locked" || c == "held" || c == "probe" || c == "holder" || c == "setup"
 
-/-- the functions that may write while the stream is being negotiated -/
-def setupFns : List String := ["negotiateSession", "writeStreamFeatures"]
-
-/-- the table is there, the token writer's methods are in it (class `holder`), and only the two
-negotiation functions are excused as `setup`.  That `Encode`, `EncodeElement`, `Send`,
-`SendElement` take the lock — themselves or through an unexported function they delegate to —
-is part of `C05_gen_broken_guard` (no row is pinned by name: a maintainer may move the locking
-body of an entry point into a helper) -/
+/-- the table is there, the token writer's methods are in it (class `holder`), locked functions
+exist, and so do functions of class `setup`.  `setup` is decided by the extractor STRUCTURALLY
+since round E (review A-4; it was a list of two function names): an unexported top-level
+function every reference to which sits in a top-level function — never in a method of any type,
+never in a `go` statement — that is exported and takes no `*Session` (a constructor) or is
+itself `setup`; such a function only runs while the session is being made.  That `Encode`,
+`EncodeElement`, `Send`, `SendElement` take the lock — themselves or through an unexported
+function they delegate to — is part of `C05_gen_broken_guard` (no row is pinned by name: a
+maintainer may rename or split any unexported function) -/
 theorem C05_gen_lock_discipline :
     ∃ t, Generated.C05.transmitFns = some t ∧
-      (∃ p ∈ t, p.2 = "holder") ∧ (∃ p ∈ t, p.2 = "locked") ∧
-      (∀ p ∈ t, p.2 = "setup" → p.1 ∈ setupFns) := by
+      (∃ p ∈ t, p.2 = "holder") ∧ (∃ p ∈ t, p.2 = "locked") ∧ (∃ p ∈ t, p.2 = "setup") := by
   refine ⟨_, rfl, by decide, by decide, by decide⟩
 
 /-- `TokenWriter` takes the output lock before it hands out the writer (and does not release
@@ -72,8 +73,9 @@ read do not matter), and outside the type only stream negotiation (which builds 
 writes to such a field -/
 theorem C05_gen_encoder_methods :
     Generated.C05.stanzaEncoderMethods = some ["EncodeToken"] ∧
-    ∃ o, Generated.C05.stanzaEncoderOutsideWriters = some o ∧ ∀ f ∈ o, f ∈ setupFns := by
-  refine ⟨by decide, _, rfl, by decide⟩
+    ∃ o t, Generated.C05.stanzaEncoderOutsideWriters = some o ∧ Generated.C05.transmitFns = some t ∧
+      ∀ f ∈ o, t.any (fun p => p.1 == f && p.2 == "setup") = true := by
+  refine ⟨by decide, _, _, rfl, rfl, by decide⟩
 
 /-- every one-shot transmit entry point refuses to write when the previous write was abandoned
 inside an element (hypothesis `guard = true` of the fault theorems), and it finds that out
